@@ -122,25 +122,28 @@ def r_slit_and_report(ctx: Ctx, model):
                     raise AnalysisError(f"slit potential closure cannot be evaluated: {outs2}")
                 phi = outs2[0].value
                 d0 = (a["molecular_diameter"] + m["molecular_diameter"]) / 2
-                cs = S("c_sigma")
-                # constant used for sigma
-                src = ast.unparse(fi.node)
-                import re
-                mm = re.search(r"sigma = ([0-9.]+) \* d_eff", src)
-                if not mm:
-                    raise AnalysisError("slit branch: `sigma = <const> * d_eff` not found")
-                cval = float(mm.group(1))
-                ctx.ob(abs(cval - (2 / 5) ** (1 / 6)) < 1e-6, Finding("C17.H-slit", fi.where, f"slit|sigma-constant={cval}",
-                                                                       f"sigma = {cval} * d0; the zero-energy distance is (2/5)^(1/6) d0 = {(2 / 5) ** (1 / 6):.7f} d0"),
-                       nontrivial_key=("sigma",))
-                sig = sp.Rational(str(cval)) * d0
+                # sigma = c * d0: the candidates for c are the exact (2/5)^(1/6) and every float literal of the function near it
+                exact_c = sp.Rational(2, 5) ** sp.Rational(1, 6)
+                cands = [exact_c] + [sp.Rational(repr(k_.value)) for k_ in ast.walk(fi.node)
+                                     if isinstance(k_, ast.Constant) and isinstance(k_.value, float) and abs(k_.value - float(exact_c)) < 1e-2]
                 A_a = sp.Rational(3, 2) * S("m_e") * S("c_l")**2 * (a["polarizability"] * sp.Rational(1, 10**27)) * (a["magnetic_susceptibility"] * sp.Rational(1, 10**27))
                 pa, pm_ = a["polarizability"] * sp.Rational(1, 10**27), m["polarizability"] * sp.Rational(1, 10**27)
                 ca, cm = a["magnetic_susceptibility"] * sp.Rational(1, 10**27), m["magnetic_susceptibility"] * sp.Rational(1, 10**27)
                 A_m = 6 * S("m_e") * S("c_l")**2 * pa * pm_ / (pa / ca + pm_ / cm)
-                want = (S("N_A") / (S("R") * T)) * (a["surface_density"] * A_a + m["surface_density"] * A_m) / ((sig * sp.Rational(1, 10**9))**4 * (l - 2 * d0)) * \
-                    (sig**4 / (3 * (l - d0)**3) - sig**10 / (9 * (l - d0)**9) - sig**4 / (3 * d0**3) + sig**10 / (9 * d0**9))
-                verdict, wit = decide_zero(phi - want, symbols_domain={"l": (2, 3), "d_a": (sp.Rational(3, 10), sp.Rational(4, 10)), "d_m": (sp.Rational(3, 10), sp.Rational(4, 10))})
+                verdict, wit, cval = "nonzero", None, None
+                for cand in cands:
+                    sig = cand * d0
+                    want = (S("N_A") / (S("R") * T)) * (a["surface_density"] * A_a + m["surface_density"] * A_m) / ((sig * sp.Rational(1, 10**9))**4 * (l - 2 * d0)) * \
+                        (sig**4 / (3 * (l - d0)**3) - sig**10 / (9 * (l - d0)**9) - sig**4 / (3 * d0**3) + sig**10 / (9 * d0**9))
+                    v_, w_ = decide_zero(phi - want, symbols_domain={"l": (2, 3), "d_a": (sp.Rational(3, 10), sp.Rational(4, 10)), "d_m": (sp.Rational(3, 10), sp.Rational(4, 10))})
+                    if v_ == "zero":
+                        verdict, wit, cval = v_, w_, cand
+                        break
+                    wit = wit or w_
+                if cval is not None:
+                    ctx.ob(abs(float(cval) - float(exact_c)) < 1e-6, Finding("C17.H-slit", fi.where, f"slit|sigma-constant={float(cval):.7f}",
+                                                                          f"sigma = {float(cval)} * d0; the zero-energy distance is (2/5)^(1/6) d0 = {float(exact_c):.7f} d0"),
+                           nontrivial_key=("sigma",))
                 ctx.ob(verdict == "zero", Finding("C17.H-slit", fi.where, "slit|potential!=published-equation",
                                                   f"the slit potential built by psd_horvath_kawazoe differs from the published Horvath-Kawazoe equation "
                                                   f"(with Kirkwood-Mueller constants, nm->m factors, N_A/RT); witness {wit}"),
